@@ -184,7 +184,7 @@ Qed.
 Lemma apply_dirs_x_agrees : forall dsv v s esc s' esc',
   value_string v = Ok s ->
   apply_directives (map dconv dsv) s esc = Ok (s', esc') ->
-  exists v', apply_dirs_hook x_dirs dsv v esc = Ok (v', esc') /\ value_string v' = Ok s'.
+  exists v', apply_dirs_hook x_dirs dsv (Some v) esc = Ok (Some v', esc') /\ value_string v' = Ok s'.
 Proof.
   induction dsv as [|[name args] rest IH]; intros v s esc s' esc' Hv H; cbn [map apply_directives] in H.
   - injection H as <- <-. exists v. split; [reflexivity | exact Hv].
